@@ -433,7 +433,39 @@ def strnlen_hook(exe, st, node, args):
 
 strnlen_hook.pure = True
 
-MATH_HOOKS = {'strnlen': strnlen_hook, 'sqrt': sqrt_hook, 'sin': sin_hook, 'cos': cos_hook, 'fabs': fabs_hook, 'fmax': fmax_hook, 'fmin': fmin_hook, 'exp': exp_hook}
+def _str_term(exe, st, p):
+    """(array term, offset) designating the C string that starts at p inside a byte array."""
+    if p.obj is None or p.obj is RAW or p.path:
+        raise FrontEndError('strncmp on a non-array pointer')
+    return st.array_term(p.obj, p.path), exe._ix(p.idx[-1])
+
+
+STRNCMP = None
+
+
+def strncmp_fn(exe):
+    global STRNCMP
+    a = z3.ArraySort(exe.sem.idx_sort(), exe.sem.idx_sort())
+    if STRNCMP is None:
+        STRNCMP = z3.Function('strncmp', a, z3.IntSort(), a, z3.IntSort(), z3.IntSort(), z3.IntSort())
+    return STRNCMP
+
+
+def strncmp_hook(exe, st, node, args):
+    """strncmp(a, b, n): an uninterpreted pure function of the two byte arrays, the two offsets and n (assumed libc contract:
+    the result depends on nothing else); the verified code only tests the result against zero."""
+    exe.assumed.add('libc strncmp is a pure function of the two strings and n (its value is not modelled)')
+    a, b, n = args
+    exe._check_deref(a, st, node)
+    exe._check_deref(b, st, node)
+    ta, oa = _str_term(exe, st, a)
+    tb, ob = _str_term(exe, st, b)
+    return strncmp_fn(exe)(ta, oa, tb, ob, n)
+
+
+strncmp_hook.pure = True
+
+MATH_HOOKS = {'strncmp': strncmp_hook, 'strnlen': strnlen_hook, 'sqrt': sqrt_hook, 'sin': sin_hook, 'cos': cos_hook, 'fabs': fabs_hook, 'fmax': fmax_hook, 'fmin': fmin_hook, 'exp': exp_hook}
 
 HOOKS = {'memcpy': memcpy_hook, 'memmove': memcpy_hook, 'memset': memset_hook,
          '__builtin_memcpy': memcpy_hook, '__builtin_memset': memset_hook,
